@@ -38,14 +38,15 @@ Qed.
 (* kinds 0,1,3,4,5: the emitted text is Safe; kind 6: the text after what the
    stream already held is Safe; kind 2 ({raw:}): verbatim. *)
 Theorem emit_var_positions_safe : forall w kind s,
-  In kind [0; 1; 3; 4; 5; 7; 8] -> Safe (c03_emit_cfg true w kind s).
+  In kind [0; 1; 3; 4; 5; 7; 8; 10] -> Safe (c03_emit_cfg true w kind s).
 Proof.
   intros w kind s Hk. cbn [In] in Hk.
-  destruct Hk as [<-|[<-|[<-|[<-|[<-|[<-|[<-|[]]]]]]]]; unfold c03_emit_cfg.
+  destruct Hk as [<-|[<-|[<-|[<-|[<-|[<-|[<-|[<-|[]]]]]]]]]; unfold c03_emit_cfg.
   - apply vt_on_safe.
   - apply vt_on_safe.
   - destruct s; apply vt_on_safe.
   - apply (svar_go_safe w _ (Forall_cons _ (vt_on_safe w s) (Forall_nil _)) (length s)). lia.
+  - apply vt_on_safe.
   - apply vt_on_safe.
   - apply vt_on_safe.
   - apply vt_on_safe.
